@@ -167,6 +167,13 @@ class CheckpointedResult:
             return False
         return op.status in {OperationStatus.STARTED, OperationStatus.READY}
 
+    def is_ready(self) -> bool:
+        """Return True if the checkpointed operation is READY (retry timer fired)."""
+        op = self.operation
+        if not op:
+            return False
+        return op.status is OperationStatus.READY
+
     def is_pending(self) -> bool:
         """Return True if the checkpointed operation is PENDING."""
         op = self.operation
